@@ -88,8 +88,14 @@ def exercise(case):
     which image(s) to load: all"""
     import ceos_alos2
 
-    b = product.build_product(level=case.get("level", "1.5"), kind=case.get("kind"), sample=case.get("sample"),
-                              images=case["images"], seed=case["seed"], pixel_special=case.get("special", True))
+    if case.get("big"):
+        from . import bigimg
+
+        (pol, scan, n_, p_), = case["images"]
+        b = bigimg.build(case.get("level", "1.5"), n_, p_, case["seed"], pol=pol, scan=scan)
+    else:
+        b = product.build_product(level=case.get("level", "1.5"), kind=case.get("kind"), sample=case.get("sample"),
+                                  images=case["images"], seed=case["seed"], pixel_special=case.get("special", True))
     out = {"case": case, "runs": []}
     opts = dict(case.get("options") or {})
     if case.get("rpc") is not None:
